@@ -166,12 +166,17 @@ def draw_pack_case(rng, alg=None, cls=None, pres=None, algs=PACKERS, nmax=None, 
         order = rng.choice(gen.ORDERS)
         case = {"kind": "pack", "alg": alg, "C": C, "values": gen.arrange(rng, v, order), "cls": cls, "order": order}
     else:
-        cls = cls or rng.choice(["random", "hardpack", "repeat", "threshold", "zeros", "equal", "planted"])
+        cls = cls or rng.choice(["random", "hardpack", "repeat", "threshold", "zeros", "equal", "planted", "widerange"])
         C, v = gen.pack_instance(rng, cls, nmax or rng.choice([8, 12, 40, 150]))
         order = rng.choice(gen.ORDERS)
         v = gen.arrange(rng, v, order)
         case = {"kind": "pack", "alg": alg, "C": C, "values": v, "cls": cls, "order": order}
-        if frac_ok and rng.random() < 0.2:
+        if frac_ok and cls == "widerange" and C & (C - 1) == 0 and rng.random() < 0.5:
+            # bin size 1 with items down to 2^-50: exactly representable dyadic fractions
+            case["C"] = 1.0
+            case["values"] = [x / C for x in v]
+            case["dyadic"] = C
+        elif frac_ok and cls != "widerange" and rng.random() < 0.2:
             d = 2 ** rng.randint(1, 6)
             case["C"] = C / d
             case["values"] = [x / d for x in v]
